@@ -107,6 +107,9 @@ def as_arith(x):
 
 
 def binop(I, op, a, b, lineno=None):
+    for x in (a, b):
+        if hasattr(x, 'pv_binop'):
+            return x.pv_binop(b if x is a else a)
     # concrete python values
     if not isinstance(a, (SV, SArr, PList, Rec)) and not isinstance(b, (SV, SArr, PList, Rec)):
         try:
@@ -124,6 +127,9 @@ def binop(I, op, a, b, lineno=None):
                 return a // b
             if op is ast.Mod:
                 if isinstance(a, str):
+                    args = b if isinstance(b, tuple) else (b,)
+                    if all(isinstance(x, (str, int, float)) for x in args):
+                        return a % b
                     return Opaque('str%')
                 return a % b
             if op is ast.Pow:
@@ -295,6 +301,8 @@ def power(I, a, b, lineno=None):
 
 
 def unop(I, op, v, frame=None):
+    if hasattr(v, 'pv_binop') and op is not ast.Not:
+        return v.pv_binop(None)
     if op is ast.Not:
         t = frame.truth(v)
         if isinstance(t, bool):
@@ -352,6 +360,15 @@ def cmp_terms(op, a, b):
 
 
 def compare(I, op, a, b, frame=None):
+    if op in (ast.In, ast.NotIn) and hasattr(b, 'pv_contains'):
+        r = b.pv_contains(a)
+        if op is ast.In:
+            return r
+        return (not r) if isinstance(r, bool) else SV(z3.Not(r.t))
+    if op not in (ast.Is, ast.IsNot, ast.In, ast.NotIn):
+        for x in (a, b):
+            if hasattr(x, 'pv_compare'):
+                return x.pv_compare(b if x is a else a)
     if op in (ast.Is, ast.IsNot):
         if isinstance(a, SV) or isinstance(b, SV):
             r = (a is None) == (b is None) and (a is b)
@@ -519,6 +536,11 @@ def getitem(I, base, idx, lineno=None):
         raise Unsupported(f"record subscript {idx!r}")
     if isinstance(base, dict):
         k = idx
+        hv = [x for x in (k if isinstance(k, tuple) else (k,)) if hasattr(x, 'pv_havoc')]
+        if hv:
+            # arbitrary key: the lookup fails or yields an arbitrary object
+            hv[0].world.may_fail('dict lookup with an arbitrary key', kinds=('KeyError',))
+            return hv[0]._new('dict[]')
         if k not in base:
             raise PyRaise('KeyError', str(k), lineno)
         return base[k]
@@ -728,6 +750,8 @@ def setitem(I, frame, target_expr, base, idx, val, lineno=None):
 
 
 def delitem(I, base, idx, lineno):
+    if hasattr(base, 'pv_delitem'):
+        return base.pv_delitem(idx)
     if isinstance(base, dict):
         if idx not in base:
             raise PyRaise('KeyError', lineno=lineno)
@@ -756,7 +780,7 @@ def getattr_(I, base, attr, frame, lineno=None):
             # PylifeSignal.__getattr__ fallbacks are not modelled
             raise Unsupported(f"attribute {attr} of {base.cls.name}")
         if isinstance(node, ast.Assign):
-            return I.eval_in_module(node.value, c.mod)
+            return I.eval_class_attr(c, node)
         f = Func(node, c.mod, None, f"{c.mod.name}::{c.name}.{node.name}", base, c)
         decos = [d.id if isinstance(d, ast.Name) else (d.attr if isinstance(d, ast.Attribute) else None) for d in node.decorator_list]
         if 'property' in decos:
@@ -768,8 +792,17 @@ def getattr_(I, base, attr, frame, lineno=None):
         c, node = base.lookup(attr)
         if node is None:
             raise Unsupported(f"class attribute {attr}")
+        if isinstance(node, ast.Assign) and any(isinstance(b, ast.Name) and b.id == 'Enum' for b in c.node.bases):
+            # enum member: one object per (class, name) with .name / .value; == is identity
+            key = ('enum', c.mod.name, c.name, attr)
+            if key not in I.classes:
+                m = Obj(c)
+                m.fields['name'] = attr
+                m.fields['value'] = I.eval_class_attr(c, node)
+                I.classes[key] = m
+            return I.classes[key]
         if isinstance(node, ast.Assign):
-            return I.eval_in_module(node.value, c.mod)
+            return I.eval_class_attr(c, node)
         return Func(node, c.mod, None, f"{c.mod.name}::{c.name}.{node.name}", None, c)
     if isinstance(base, ModV):
         try:
@@ -814,10 +847,16 @@ def getattr_(I, base, attr, frame, lineno=None):
             return 0
     if isinstance(base, tuple) and attr == 'index':
         pass
+    if isinstance(base, Builtin) and base.name == 'str' and attr == 'encode':
+        return bound('str.encode', lambda s_, *a: Opaque('bytes'))
+    if isinstance(base, str) and attr == 'encode':
+        return bound('str.encode', lambda *a: Opaque('bytes'))
     raise Unsupported(f"attribute {attr} of {type(base).__name__}")
 
 
 def setattr_(I, base, attr, v):
+    if hasattr(base, 'pv_setattr'):
+        return base.pv_setattr(attr, v)
     if isinstance(base, Opaque):
         return
     raise Unsupported(f"attribute assignment on {type(base).__name__}")
@@ -1582,6 +1621,8 @@ def newton(I, func=None, x0=None, fprime=None, args=(), tol=None, rtol=None, max
 # python builtins
 # --------------------------------------------------------------------------------------------
 def b_len(I, x):
+    if hasattr(x, 'pv_len'):
+        return x.pv_len()
     if isinstance(x, PList):
         return len(x.items)
     if isinstance(x, (tuple, list, dict, str)):
@@ -1600,6 +1641,8 @@ def b_len(I, x):
 
 
 def b_isinstance(I, x, cls):
+    if hasattr(x, 'pv_isinstance'):
+        return x.pv_isinstance(cls)
     def one(c):
         tag = c.tag if isinstance(c, (Opaque, LibType)) else c
         if isinstance(c, Builtin) and not isinstance(c, LibType) and c.name in ('float', 'int', 'list', 'tuple', 'str', 'dict', 'bool'):
